@@ -96,7 +96,7 @@ def run(ctx):
     # Commit is a function of its input: the same vectors committed by several goroutines at once
     # (one shared slice per vector) give the sequential results
     pick = [j for j, l in enumerate(lines) if cls[j] in ("dense-random", "length-256", "length-255", "all-max", "special")][:8]
-    shared_use_phase(ctx, [lines[j] for j in pick], [impl0[j] for j in pick], "Commit", g=8, repeat=8)
+    shared_use_phase(ctx, [lines[j] for j in pick], [impl0[j] for j in pick], "Commit", g=16, repeat=12)
     # (1b) the same Go results against the ALGORITHM-level model (Coq model of the precomputed-table
     # MSM: window recoding with carry, table lookups, negation), on a sample biased to the 8-bit tables
     # (the 16-bit tables of points 0..4 are built lazily by the model: 2^15 entries x 16 windows each)
